@@ -22,11 +22,12 @@ C1    == {"c1"}
 C2    == {"c1", "c2"}
 
 B(cr, ed, de, fl, rs) == [cr |-> cr, ed |-> ed, de |-> de, fl |-> fl, rs |-> rs]
-Bq   == B(1, 2, 1, 1, 1)
+Bq   == B(1, 1, 1, 1, 1)
+Bdev == B(1, 2, 1, 1, 1)
 Bt   == B(2, 2, 1, 1, 1)
 Bt2  == B(2, 2, 1, 0, 0)
 Bs   == B(1, 2, 0, 1, 0)
-Bl   == B(1, 2, 1, 0, 0)
+Bl   == B(1, 1, 1, 0, 0)
 Bp3  == B(1, 1, 0, 1, 0)
 Bp3d == B(1, 1, 1, 0, 0)
 Blt  == B(1, 2, 1, 1, 0)
